@@ -346,6 +346,127 @@ def corpus_cases():
     return out
 
 
+# ------------------------------------------------------------------------------------------ exhaustive small shapes
+
+def small_graphs(max_nodes=4, extra_paths=(5, 6)):
+    """connected graphs on 1..max_nodes nodes up to isomorphism (one labelling each) + longer paths"""
+    import itertools
+    out = []
+    for n in range(1, max_nodes + 1):
+        pairs = list(itertools.combinations(range(n), 2))
+        seen = set()
+        for mask in range(2 ** len(pairs)):
+            edges = [pairs[b] for b in range(len(pairs)) if mask >> b & 1]
+            reach, grew = {0}, True
+            while grew:
+                new = {v for u, v in edges if u in reach} | {u for u, v in edges if v in reach}
+                grew = not new <= reach
+                reach |= new
+            if len(reach) < n:
+                continue
+            canon = min(tuple(sorted(tuple(sorted((perm[u], perm[v]))) for u, v in edges)) for perm in itertools.permutations(range(n)))
+            if canon in seen:
+                continue
+            seen.add(canon)
+            out.append((n, [list(e) for e in edges]))
+    for n in extra_paths:
+        out.append((n, [[i, i + 1] for i in range(n - 1)]))
+    return out
+
+
+def run_exhaustive(ctx):
+    """EXHAUSTIVE direct streams (no force field, no files): the repository's `graph_utils.neighborhood` on every
+    small connected graph x source x max_length 0..4 x min_length 0..5, and `apply_links.expand_excl` on every
+    small connected graph x nrexcl 0..2 x every assignment of {no tag, 1, 2, 3} to the atoms (graphs <= 3 atoms)
+    resp. {no tag, 2, 3} (4 atoms), vs `Excl.neighborhood` / `Excl.expandExcl`; oracle of the statement
+    (`specPairs` vs `effectivePairs`) wherever every tag is >= nrexcl (what `tag_exclusions` produces)"""
+    import itertools
+    import networkx as nx
+    import vermouth
+    from polyply.src.graph_utils import neighborhood
+    from polyply.src.apply_links import expand_excl
+    graphs = small_graphs()
+    reqs, impl, labels = [], [], []
+    for n, edges in graphs:
+        graph = nx.Graph()
+        graph.add_nodes_from(range(n))
+        graph.add_edges_from(edges)
+        for source in range(n):
+            for max_length in range(5):
+                for min_length in range(6):
+                    impl.append(sorted(int(x) for x in neighborhood(graph, source, max_length, min_length)))
+                    # oracle (own breadth-first distances): the nodes whose shortest path from `source` has at most
+                    # `max_length` edges and at least `min_length` NODES
+                    dist, frontier = {source: 0}, [source]
+                    while frontier:
+                        nxt = []
+                        for u in frontier:
+                            for a, b in edges:
+                                for x, y in ((a, b), (b, a)):
+                                    if x == u and y not in dist:
+                                        dist[y] = dist[u] + 1
+                                        nxt.append(y)
+                        frontier = nxt
+                    want = sorted(v for v, d in dist.items() if d <= max_length and d + 1 >= min_length)
+                    if impl[-1] != want and not any(f["shape"] == "neighborhood-wrong" for f in ctx.failures):
+                        ctx.oracle_fail("neighborhood-wrong", "neighborhood(graph with edges %s, source=%d, max_length=%d, min_length=%d) "
+                                        "returns %s, the nodes at that path length are %s" % (edges, source, max_length, min_length, impl[-1], want),
+                                        dict(stream="neighborhood", edges=edges, source=source, max=max_length, min=min_length))
+                    reqs.append(dict(op="neighborhood", edges=edges, source=source, max=max_length, min=min_length))
+                    labels.append((n, edges, source, max_length, min_length))
+    answers = ctx.driver.ask(reqs)
+    model = [sorted(a.get("nodes", ["model-rejects"])) for a in answers]
+    bad = [(l, i, m) for l, i, m in zip(labels, impl, model) if i != m][:5]
+    ctx.correspond("neighborhood", impl, model, dict(stream="neighborhood", first_differences=bad))
+    ctx.tally(neighborhood_exhaustive=len(reqs))
+    # ---- expand_excl
+    reqs, todo = [], []
+    for n, edges in graphs:
+        if n > 4:
+            continue
+        values = [None, 1, 2, 3] if n <= 3 else [None, 2, 3]
+        for nrexcl in (0, 1, 2):
+            for tags in itertools.product(values, repeat=n):
+                mol = vermouth.molecule.Molecule()
+                mol.nrexcl = nrexcl
+                for i in range(n):
+                    if tags[i] is None:
+                        mol.add_node(i)
+                    else:
+                        mol.add_node(i, exclude=tags[i])
+                mol.add_edges_from(edges)
+                expand_excl(mol)
+                got = [sorted(int(a) for a in ixn.atoms) for ixn in mol.interactions.get("exclusions", [])]
+                tag_list = [[i, t] for i, t in enumerate(tags) if t is not None]
+                reqs.append(dict(op="expand", nrexcl=nrexcl, tags=tag_list, edges=edges))
+                e_of = [[i, (t if t is not None else nrexcl)] for i, t in enumerate(tags)]
+                reqs.append(dict(op="spec", atoms=list(range(n)), e=e_of, edges=edges, nrexcl=nrexcl, listed=got))
+                todo.append((dict(stream="expand-exhaustive", n=n, edges=edges, nrexcl=nrexcl, tags=list(tags)), got))
+    answers = ctx.driver.ask(reqs)
+    bad, bad_oracle = [], []
+    impl_all, model_all = [], []
+    for idx, (replay, got) in enumerate(todo):
+        exp, spec = answers[2 * idx], answers[2 * idx + 1]
+        impl_all.append(sorted(got))
+        model_all.append(sorted(sorted(p) for p in exp.get("generated", [["model-rejects"]])))
+        if impl_all[-1] != model_all[-1] and len(bad) < 5:
+            bad.append((replay, impl_all[-1], model_all[-1]))
+        if got and all(t is None or t == replay["nrexcl"] for t in replay["tags"]):
+            ctx.oracle_fail("uniform-exclusions-invented", "every atom prescribes the exclusion distance %d of the molecule, yet "
+                            "expand_excl adds %s (%s)" % (replay["nrexcl"], got, replay), replay)
+        if len(got) != len({tuple(p) for p in got}):
+            ctx.oracle_fail("generated-pair-twice", "expand_excl lists a pair twice: %s on %s" % (got, replay), replay)
+        if all(t is None or t >= replay["nrexcl"] for t in replay["tags"]) and spec.get("ok"):
+            want, eff = sorted(map(tuple, spec["want"])), sorted(map(tuple, spec["effective"]))
+            if want != eff:
+                shape = "pair-not-excluded" if [p for p in want if p not in eff] else "pair-excluded-beyond-prescribed-distance"
+                ctx.oracle_fail(shape, "expand_excl on %s: pairs within the prescribed distances %s, pairs excluded (nrexcl or "
+                                "generated) %s" % (replay, want, eff), replay)
+    ctx.correspond("expandExcl-exhaustive", impl_all, model_all, dict(stream="expand-exhaustive", first_differences=bad))
+    ctx.tally(expand_excl_exhaustive=len(todo))
+    ctx.case("exhaustive-small-shapes", stream="exhaustive")
+
+
 def run(ctx):
     ctx.extra["rule"] = RULE
     ctx.extra["trusted"] = ["networkx single_source_shortest_path (modelled by breadth-first levels)",
@@ -358,6 +479,7 @@ def run(ctx):
     ]
     ctx.extra["explanation"] = ("oracle = Excl.specPairs ∪ explicit vs Excl.effectivePairs, both evaluated by the Lean driver on the "
                                 "written .itp (nrexcl, [bonds]/[constraints], [exclusions])")
+    run_exhaustive(ctx)
     rng = ctx.rng
     cases = corpus_cases()
     for _ in range(ctx.budget(500, 5000)):
@@ -369,6 +491,8 @@ def run(ctx):
 def replay(ctx, data):
     inp = data.get("input") or {}
     items = [inp] if inp else [i["input"] for i in data.get("no_longer_checks", []) if i.get("input")]
+    if any(item.get("stream") in ("expand-exhaustive", "neighborhood") for item in items):
+        run_exhaustive(ctx)
     run_cases(ctx, [item["case"] for item in items if "case" in item])
     for b in ctx.broken:
         print("REPLAY-DISAGREES", b["name"], b["detail"][:600])
